@@ -586,7 +586,9 @@ of gauge creations, top-ups, route changes and epochs reports the same on both c
 failures, same payouts to every owner in every epoch — and the imported chain keeps `Follow`ing the exporting one (same
 configuration, counters, balance, records of all gauges not finished at export time, and the same result of every
 activation), PROVIDED (`okAfter`) epochs happen at block times `≥ now` and no gauge that was already finished at export
-time is topped up — those top-ups really behave differently (`incentives_import_changes_topup_outcome_witness`).  The early
+time is topped up — since repository fix 21bb9c1bc7 such a top-up fails on both chains at every block time not before the
+gauge's start (`Props.C09.finished_gauge_rejects_topup`, `incentives_import_keeps_topup_outcome_witness`; before the fix a
+gauge finished with an unpaid epoch accepted it on the exporting chain only); the proviso is kept.  The early
 activation done by the import (F36) is absorbed: filing a gauge commutes with activation (`activate_refsAdd_up`). -/
 theorem incentives_run_after_import {s t : Incentives.State} {now : Int} (h : Incentives.Reachable s)
     (hstarted : ∀ kv ∈ s.active, kv.1 ≤ now) (ht : Incentives.exportImport now s = some t) (ops : List Incentives.Op)
@@ -617,12 +619,12 @@ theorem incentives_run_after_import_partial {s t : Incentives.State} {now now' :
   Incentives.run_after_import (Incentives.reachable_inv h).1 (Incentives.reachable_inv h).2 (Incentives.reachable_wf h)
     (Incentives.reachable_cov h) hstarted ht hle thr locks hok ops hav
 
-/-- history: gauge 1 (2 epochs, 1000uosmo) pays 500 in its first epoch and finishes in the second one WITHOUT a
-qualifying lock (F20: filled 1 of 2); gauge 2 (perpetual) is created with a start time in the past. -/
+/-- history: gauge 1 (2 epochs, 1000uosmo) pays 500 in each of its two epochs and finishes (filled 2 of 2); gauge 2
+(perpetual) is created with a start time in the past. -/
 def incHist : List Incentives.Op := [
   .create false "lp" 3600 [("uosmo", 1000)] 0 2,
   .epoch 10 [("uosmo", some 1)] [⟨1, 0, none, 3600, "lp", 100, false⟩],
-  .epoch 20 [("uosmo", some 1)] [],
+  .epoch 20 [("uosmo", some 1)] [⟨1, 0, none, 3600, "lp", 100, false⟩],
   .create true "lp" 3600 [("uosmo", 700)] 5 1]
 
 def incState : Incentives.State := Incentives.run (Incentives.init ⟨[3600], ["lp"], []⟩ []) incHist
@@ -641,11 +643,12 @@ theorem incentives_export_drops_finished_gauges_witness :
       some (none, [], [], [2], 2, [2]) := by
   decide +kernel
 
-/-- … and a LATER TRANSACTION behaves differently: gauge 1 sits in the finished store with `filled 1 < 2` (F20), so
-its fields still say "active" and `AddToGaugeRewards(1)` SUCCEEDS on the exporting chain but fails on the imported one
+/-- … but no LATER TRANSACTION on the gauge behaves differently (it did before repository fix 21bb9c1bc7, when a gauge
+could sit in the finished store with `filled < numEpochs` and still accept deposits, F20/F63): `AddToGaugeRewards(1)`
+fails on the exporting chain (the gauge is finished: `Props.C09.finished_gauge_rejects_topup`) and on the imported one
 (gauge not found). -/
-theorem incentives_import_changes_topup_outcome_witness :
-    (Incentives.addToGauge incState 1 [("uosmo", 50)] 30).isSome = true ∧
+theorem incentives_import_keeps_topup_outcome_witness :
+    (Incentives.addToGauge incState 1 [("uosmo", 50)] 30).isSome = false ∧
     (Incentives.exportImport 30 incState).map (fun t => (Incentives.addToGauge t 1 [("uosmo", 50)] 30).isSome) = some false := by
   decide +kernel
 
